@@ -164,6 +164,12 @@ def f2_handlers():
     )
     out.append(
         (
+            "handler-multi-commands",
+            WF({"a": T([N(F, "noop"), N(F, "fail"), N(C, "continue"), N(S, "b")]), "b": T()}),
+        )
+    )
+    out.append(
+        (
             "handler-task-noop",
             WF({"a": T([N(F, ["c", "noop"]), N(S, "b")]), "b": T(), "c": T()}),
         )
@@ -188,8 +194,9 @@ def f2_fanin(tier):
             # one edge differs: *, F ; plus all-completed
             for alt in (None, F, C):
                 cond_sets.append(tuple([alt] + [S] * (m - 1)))
-            if tier != "quick":
+            if tier != "quick" or m == 2:
                 cond_sets.append(tuple([F] * m))
+            if tier != "quick":
                 cond_sets.append(tuple([C] * m))
             for conds in cond_sets:
                 for blen in (1, 2):
@@ -416,8 +423,22 @@ def loop_forkjoin_wf(k=1):
     }, vars=[{"n": 0}])
 
 
+def loop_fork_out_wf(k=2):
+    """Every pass of the loop forks to a multi-referenced task outside the loop (report), which has a successor."""
+    return WF({
+        "init": T([N(S, ["work", "report"])]),
+        "work": T([N(S, ["check", "report"])]),
+        "check": T([N("<%% succeeded() and ctx().n < %d %%>" % k, "work", publish=[("n", "<% ctx().n + 1 %>")]),
+                    N("<%% succeeded() and ctx().n >= %d %%>" % k, "finish")]),
+        "report": T([N(S, "archive")]),
+        "archive": T(),
+        "finish": T(),
+    }, vars=[{"n": 0}])
+
+
 def f2_loops(tier):
     out = []
+    out.append(("loop-fork-out-k1", loop_fork_out_wf(1), S_ONLY))
     out.append(("loop-k1-b1", loop_wf(1, 1)))
     out.append(("loop-k2-b1", loop_wf(2, 1)))
     out.append(("loop-forkjoin-k1", loop_forkjoin_wf(1), S_ONLY))
@@ -575,6 +596,15 @@ def f4_defs(tier):
                 out.append(
                     (base + "-remediate", WF({"t": t3, "h": T()}, input=["xs", "k"]), inputs)
                 )
+    # more items than twice the window (out-of-order completion inside the window)
+    if tier == "quick":
+        t = T(action="core.echo", input={"message": "<% item() %>"})
+        t["with"] = {"items": "<% ctx(xs) %>", "concurrency": 2}
+        out.append(("items-n4-k2-window", WF({"t": t}, input=["xs", "k"]), {"xs": [0, 1, 2, 3], "k": 2}))
+    # literal concurrency 0 (the schema allows it; it means 1)
+    t = T(action="core.echo", input={"message": "<% item() %>"})
+    t["with"] = {"items": "<% ctx(xs) %>", "concurrency": 0}
+    out.append(("items-n2-kliteral0", WF({"t": t}, input=["xs", "k"]), {"xs": [0, 1], "k": 0}))
     # concurrency <= 0 via expression
     for kv in (0, -1):
         t = T(action="core.echo", input={"message": "<% item() %>"})
@@ -711,6 +741,9 @@ def f5_all(tier):
     t = T(action="core.echo", input={"message": "<% item() %>"}, retry={"count": 1})
     t["with"] = {"items": "<% ctx(xs) %>", "concurrency": 1}
     out.append(scn("F5/retry-items", WF({"t": t}, input=["xs"]), "F5", inputs={"xs": [0, 1]}))
+    t = T([N(F, "h")], action="core.echo", input={"message": "<% item() %>"}, retry={"count": 2, "delay": 3})
+    t["with"] = {"items": "<% ctx(xs) %>"}
+    out.append(scn("F5/retry-items-c2", WF({"t": t, "h": T()}, input=["xs"]), "F5", inputs={"xs": [0, 1]}))
     return out
 
 
@@ -795,6 +828,32 @@ def f6_defs(tier):
     lw["tasks"]["l0"]["next"][0]["publish"].append({"v": RES})
     lw["output"] = [{"v": "<% ctx(v) %>"}, {"n": "<% ctx(n) %>"}]
     out.append(("loop-publish", lw))
+    # a branch republishes the value it inherited (equal values, different publishes): it still supersedes
+    add("fj-republish-same-literal", {
+        "a": T([N(S, "p", publish=[("v", "base")])]),
+        "p": T([N(S, ["b", "c"])]),
+        "b": T([N(S, "j", publish=[("v", "base")])]),
+        "c": T([N(S, "j", publish=[("v", "override")])]),
+        "j": T([N(S, "t")], join="all"), "t": T()})
+    # dictionary-valued variable that has no default, published by two successive tasks, with a sibling branch
+    out.append(("dict-republish-nobase", WF({
+        "s": T([N(S, ["a", "z"], publish=[("cfg", {"a": 1})])]),
+        "a": T([N(S, "b", publish=[("cfg", {"b": 2})])]),
+        "b": T(),
+        "z": T([N(S, "z2", publish=[("seen", "<% ctx(cfg) %>")])]),
+        "z2": T()}, vars=[{"seen": None}], output=[{"seen": "<% ctx(seen) %>"}]), S_ONLY))
+    # two terminal branches publish a dictionary under the same name (output rendering merges them)
+    out.append(("dict-two-terminals", WF({
+        "s": T([N(S, ["a", "b"])]),
+        "a": T([N(S, "a2", publish=[("d", {"from_a": 1})])]),
+        "a2": T(input={"p": "<% ctx(d) %>"}),
+        "b": T([N(S, "b2", publish=[("d", {"from_b": 2})])]),
+        "b2": T()}, vars=[{"d": {}}], output=[{"d": "<% ctx(d) %>"}])))
+    # output refers to a variable that only a clean-up task (beside fail) publishes
+    out.append(("cleanup-publishes-output", WF({
+        "a": T([N(S, ["c", "fail"])]),
+        "c": T([N(S, "noop", publish=[("report", "cleaned")])])},
+        output=[{"report": "<% ctx().get(report) %>"}]), S_ONLY))
     # a later sibling transition reads a variable an earlier sibling transition publishes (no leak between them)
     out.append(("sibling-reads-sibling", WF({
         "a": T([N(S, "b", publish=[("v", RES)]), N(S, "c", publish=[("u", "<% ctx(v) %>")])]),
@@ -820,6 +879,14 @@ def f6_defs(tier):
         "j": T(join="all"),
         "k": T([N(S, "kend")], input={"p": "<% ctx(base) %>"}),
         "kend": T(input={"p": "<% ctx(u) %>"})}, vars=V + [{"base": 10}], output=OUT)))
+    # same shape, but the forking transition publishes nothing and the other branch publishes a secret
+    out.append(("fanout-join-and-task-nopub", WF({
+        "t0": T([N(S, ["a", "b"])]),
+        "a": T([N(S, ["j", "k"])]),
+        "b": T([N(S, "j", publish=[("secret", RES)])]),
+        "j": T(join="all"),
+        "k": T([N(S, "kend")], input={"p": "<% ctx(u) %>"}),
+        "kend": T()}, vars=V, output=OUT)))
     # fork without a join, branches of different length, each publishing its own variable
     out.append(("fork-nojoin-publish", WF({
         "a": T([N(S, ["b", "c"])]),
@@ -896,7 +963,7 @@ def fixed_outcome_scenarios(base, uniq=False, max_full=5):
     return out
 
 
-BIG_PATTERNS = ("split-nested", "fanin-in-split", "-m3-", "-m4-", "fj3-tail", "fj-two-level", "items-n4", "items-n3-knone",
+BIG_PATTERNS = ("items-n4-k2-window", "split-nested", "fanin-in-split", "-m3-", "-m4-", "fj3-tail", "fj-two-level", "items-n4", "items-n3-knone",
                 "items-n3-k4", "-l2", "-tail", "two-joins", "cleanup-par", "fanin-remediated", "-j1-", "split-2",
                 "decide-merge", "fanin-parallel-edges")
 
@@ -913,6 +980,8 @@ BAD_EXPRS = {
     "unknown_function": {"yaql": "<% nosuchfn() %>", "jinja": "{{ nosuchfn() }}"},
     "zero_division": {"yaql": "<% 1 / (ctx(n) - 1) %>", "jinja": "{{ 1 / (ctx('n') - 1) }}"},
 }
+
+WRONG_RESULT = {"yaql": "<% ctx(s2) %>", "jinja": "{{ ctx('s2') }}"}  # evaluates to the text "2"
 
 FX_POSITIONS = (
     "input", "vars", "action", "task_input", "items", "concurrency", "delay",
@@ -975,12 +1044,19 @@ def fx_all(tier):
     out = []
     for pos in FX_POSITIONS:
         for kind, langs in BAD_EXPRS.items():
-            if tier == "quick" and kind == "zero_division":
+            if tier == "quick" and kind == "zero_division" and pos not in ("publish", "input", "vars", "output"):
                 continue
             for lang, expr in langs.items():
                 wf, trig = fx_host(pos, expr)
                 meta = {"trigger": trig, "position": pos, "kind": kind, "lang": lang}
                 out.append(scn("FX/%s-%s-%s" % (pos, kind, lang), wf, "FX", meta=meta))
+    # the expression evaluates fine but yields text where an integer / list is needed
+    for pos in ("concurrency", "delay", "retry_count", "retry_delay", "items"):
+        for lang, expr in WRONG_RESULT.items():
+            wf, trig = fx_host(pos, expr)
+            wf["vars"] = wf["vars"] + [{"s2": "2"}]
+            meta = {"trigger": trig, "position": pos, "kind": "wrong_result_type", "lang": lang}
+            out.append(scn("FX/%s-wrong_result_type-%s" % (pos, lang), wf, "FX", meta=meta))
     # the failing expression sits in one of two clean-up tasks listed beside a fail command
     for kind, langs in BAD_EXPRS.items():
         if kind == "zero_division":
@@ -1089,6 +1165,9 @@ def graph_shapes(tier):
         "a": T([N(S, ["notify", "sign", "archive"]), N(F, ["notify", "report", "package"])]),
         "notify": T(), "sign": T([N(S, "s2")]), "s2": T(), "archive": T([N(S, "a2")]), "a2": T(),
         "report": T([N(S, "r2")]), "r2": T(), "package": T([N(S, "p2")]), "p2": T()})))
+    # comma separated do string that repeats a target
+    out.append(("G/do-string-repeats-target", WF({
+        "a": T([N(S, "b, c, b")]), "b": T([N(S, "d")]), "c": T(), "d": T()})))
     # retry command beside other targets; join: 0
     out.append(("G/retry-with-targets", WF({
         "a": T([N(F, ["cleanup", "retry"]), N(S, "b")]), "b": T(), "cleanup": T()})))
@@ -1116,6 +1195,7 @@ INLINE_VALUES = [
     ("'it is'", "it is"), ('"semi;colon"', "semi;colon"),
     ("'say \"hi\"'", 'say "hi"'), ('"it\'s"', "it's"), ("'\"x\"'", '"x"'), ("'a \"b\" c'", 'a "b" c'),
     ('"\'x\'"', "'x'"),
+    ("'{\"name\": \"<% ctx(x) %>\", \"size\": 9}'", {"name": "<% ctx(x) %>", "size": 9}),
 ]
 
 DELIMS = [" ", ", ", "; ", ","]
@@ -1220,6 +1300,12 @@ def rejected_defs():
                 "a": T([N(S, "b", publish=[("p", a), ("q", b)])]), "b": T()})))
             out.append(("R/one-expr-2vars-%d%d" % (i, j), WF({
                 "a": T(input={"p": "<% ctx().zq + ctx().zr + ctx().zs %>", "q": b})})))
+    six = ["va", "vb", "vc", "vd", "ve", "vf"]
+    out.append(("R/converge-6vars", WF({
+        "a": T([N(S, ["b", "c"])]),
+        "b": T([N(S, "d", publish=[(v, 1) for v in six])]),
+        "c": T([N(S, "d", publish=[(v, 1) for v in reversed(six)])]),
+        "d": T(input={"p": "<% ctx().zq %>"})})))
     out.append(("R/many-undefined-targets", WF({
         "a": T([N(S, ["g1", "g2", "g3"]), N(F, ["g3", "g1"])]), "b": T([N(S, "g2")])})))
     out.append(("R/mixed-faults", WF({
